@@ -228,6 +228,7 @@ static void Table_Clear(var self) {
 
 static void Table_Assign(var self, var obj) {
   struct Table* t = self;  
+  if (self is obj) { return; }
   Table_Clear(t);
   
   t->ktype = implements_method(obj, Get, key_type) ? key_type(obj) : Ref;
